@@ -1570,6 +1570,61 @@ func wiringRule(c *core.Ctx, key string, fn *ssa.Function, pack bool) {
 		if inPhi != nil && outPhi != nil && inPhi == outPhi {
 			cursorProblems = append(cursorProblems, "input and output are indexed by the same cursor (they advance by different amounts)")
 		}
+		// what is packed / unpacked is the input as it was handed in: the parameter itself or a view of it - or, in the
+		// encoding transformer, the septets its own table walk collected. Nothing is appended to it on the way to the loop
+		// (a septet slipped in before packing changes the octet count and every later bit position)
+		if inBuf != nil {
+			var bad string
+			seen := map[ssa.Value]bool{}
+			var walk func(v ssa.Value)
+			walk = func(v ssa.Value) {
+				if v == nil || seen[v] || bad != "" {
+					return
+				}
+				seen[v] = true
+				switch x := v.(type) {
+				case *ssa.Parameter, *ssa.MakeSlice:
+				case *ssa.Slice:
+					walk(x.X)
+				case *ssa.Phi:
+					for _, e := range x.Edges {
+						walk(e)
+					}
+				case *ssa.Call:
+					if bi, ok := x.Call.Value.(*ssa.Builtin); ok && bi.Name() == "append" {
+						// an append belongs to the table walk (a loop that consults the alphabet tables) or it is foreign
+						inWalk := false
+						for _, l := range p.Loops() {
+							if !l.Blocks[x.Block()] {
+								continue
+							}
+							for lb := range l.Blocks {
+								for _, li := range lb.Instrs {
+									if lk, isLk := li.(*ssa.Lookup); isLk && lk.CommaOk {
+										inWalk = true
+									}
+								}
+							}
+						}
+						if !inWalk {
+							bad = "a septet / octet is appended to the input at " + c.Prog.Pos(x.Pos()) + " before it is " + map[bool]string{true: "packed", false: "unpacked"}[pack]
+							return
+						}
+						walk(x.Call.Args[0])
+						return
+					}
+					if !pack || fn.Signature.Recv() == nil {
+						bad = "the loop works on the result of " + calleeName(x) + ", not on the input"
+					}
+				case *ssa.Alloc, *ssa.UnOp, *ssa.Const:
+				default:
+				}
+			}
+			walk(inBuf)
+			if bad != "" {
+				cursorProblems = append(cursorProblems, bad)
+			}
+		}
 		// the count the branches test is what is left of the input: len(input) - input cursor, at the first turn and at
 		// every later one
 		if inBuf != nil && inPhi != nil {
